@@ -10,7 +10,7 @@ TB = ("Trusted: z3/cvc5; the pyvc encoding of the Python subset (typed heap, lis
 DED = ("contract-based deductive verification of the real source (pyvc: ast -> symbolic execution against sidecar contracts -> z3/cvc5), "
        "with the native bounded floor as labelled stand-in and replay")
 CLAIMS = {
- 'C01': ('other', "Deductive: the evaluator _process_step_expression is verified arm by arm against the spec function Sem (induction on expression rank) for transitive-free expressions, "
+ 'C01': ('other', "Deductive: the evaluator _process_step_expression is verified arm by arm against the spec function Sem (induction on expression rank) for transitive-free expressions - for records of the specification AND for faithful deep copies of them (what generation passes; stated over the ghost origin of the copy), "
          "Model.get_associated_assets_by_field_name against field navigation on the model view (self-links, both orientations), is_subasset_of against the "
          "reflexive-transitive closure incl. termination, _get_variable_for_asset_type_by_name against the nearest declaration up the inheritance chain of the specification (raises iff none). Bounded: the transitive arm, the linking loop of _generate_graph and termination on cyclic models are decided by the floor "
          "(languages <=3 types, expression depth <=3, models <=3 assets incl. cycles and self-links).", '4 C01'),
